@@ -48,6 +48,18 @@ def _pool(test, rule, nontriv, quick=12000, thorough=150000, extra_assume=None):
 
 
 PROPS.update({
+    "C11": dict(kind="harness", pkg="./keys", test="TestC11",
+                quick=dict(checks=40000, shards=2, timeout=600),
+                thorough=dict(checks=400000, shards=16, timeout=3000, fuzz=("FuzzC11", 90)),
+                rule="(type, value, locator) triples: struct types built with reflect.StructOf from a drawn shape tree (depth<=3; string,int,bool,*string,[]string,[]int,"
+                     "struct,*struct,[]struct,[]*struct; colliding field names), values with nil pointers / nil and empty slices / nil list elements at every depth, locators = "
+                     "a valid path of the type, mutated in 35% of the cases (case, extra/dropped/doubled/empty segments, unicode); 10% exotic Go values (embedded nil pointers, "
+                     "unexported fields, interfaces, maps, **T, arrays, funcs, chans, generated protobuf messages incl. typed nil) x 50 odd locators, that grid is also enumerated "
+                     "completely on every run. Oracle: no panic; on the proto-like domain exact agreement (keys in order, error<=>error) with an independent reference traversal; "
+                     "elsewhere soundness (every returned key is a string reachable in the value). Non-trivial = the path crosses a repeated field or pointer and the value has a nil "
+                     "or empty element, or the case is exotic; distinct = FNV-1a of the canonical JSON of the case. Thorough adds native coverage-guided fuzzing of the same property (rapid.MakeFuzz).",
+                assume=COMMON_ASSUME + ["segment -> field name uses the documented convention (first letter upper-cased); locators with separators or caseless letters are totality/soundness only",
+                                        "exact agreement is demanded only on the proto-like domain (structs, single pointers, slices, scalars)"]),
     "C01": _pool("TestC01", "Profile 'affinity'. Oracle: a BOUND/UNBIND pick for a bound key whose home channel is READY is placed on the home channel's current connection (any picker) and the most recent picker does place it; home not READY and fallback off => ErrNoSubConnAvailable; bindings change only on successful BIND (unbound keys only) and successful UNBIND.",
                  "the history has a keyed pick for a bound key with READY home and at least one of {home channel swapped by a refresh, stale picker, saturated home, BIND of an already bound key, UNBIND, home not READY}",
                  extra_assume=["keys whose home channel was dead (Shutdown) while bound are don't-care until unbound; the empty key is no key"]),
@@ -168,6 +180,24 @@ class Runner:
                 rc = -999
             log.close()
             results[i] = rc
+        if t.get("fuzz") and not self.replay and all(rc == 0 for rc in results.values()):
+            name, secs = t["fuzz"]
+            env = self.env(t.get("env"))
+            i = shards
+            env.update(VERIF_STATS=os.path.join(self.bdir, "stats.%d.json" % i), VERIF_REPLAY_OUT=os.path.join(self.bdir, "replay.%d.json" % i), VERIF_BDIR=self.bdir)
+            log = open(os.path.join(self.bdir, "log.%d.txt" % i), "w")
+            cmd = [self.bin, "-test.run", "^$", "-test.fuzz", "^%s$" % name, "-test.fuzztime", "%ds" % secs, "-test.fuzzcachedir", os.path.join(self.bdir, "fuzzcache"),
+                   "-test.parallel", str(NCPU), "-rapid.nofailfile"]
+            try:
+                rc = subprocess.run(cmd, cwd=self.bdir, env=env, stdout=log, stderr=subprocess.STDOUT, timeout=secs + 300).returncode
+            except subprocess.TimeoutExpired:
+                rc = 0  # a fuzzing budget that runs out is never a failure
+            log.close()
+            text = open(os.path.join(self.bdir, "log.%d.txt" % i), errors="replace").read()
+            import re as _re
+            m = _re.findall(r"execs: (\d+)", text)
+            self.fuzz_execs = int(m[-1]) if m else 0
+            results[i] = rc
         return self.conclude(results, t)
 
     def conclude(self, results, t):
@@ -254,6 +284,8 @@ class Runner:
         }
         if extra:
             cov["extra"] = extra
+        if getattr(self, "fuzz_execs", None) is not None:
+            cov["native_fuzz_execs"] = self.fuzz_execs
         if self.replay:
             cov["replay_of"] = self.replay
         ev = {
